@@ -185,8 +185,9 @@ class Recorder:
         }
 
 
-class CaseTimeout(Exception):
-    pass
+class CaseTimeout(BaseException):
+    """Raised by the per-case watchdog (SIGALRM).  A BaseException so that `except Exception` blocks in monitors or
+    in the code under observation cannot swallow it and turn a watchdog firing into a spurious comparison result."""
 
 
 def _alarm(signum, frame):  # pragma: no cover
